@@ -1,7 +1,7 @@
 (* C18 - lemmas about the IEEE-754 instance (F64.v), resting on Flocq's
    correctness theorems for Bmult / Bplus / Bminus / Btrunc / binary_normalize. *)
 From Coq Require Import ZArith Reals Lia Lra List Bool.
-From Flocq Require Import Core BinarySingleNaN.
+From Flocq Require Import Core BinarySingleNaN Relative.
 From Verif Require Import C18.Model gen.Pre C18.Run C18.Proofs C18.F64.
 Import ListNotations.
 Open Scope R_scope.
@@ -287,4 +287,151 @@ Proof.
   - repeat constructor; discriminate.
   - destruct (mk64_dyadic 12345 (-3)) as (A' & B'); [reflexivity|lia|].
     exists (mk64 12345 (-3)), 12345%Z. repeat split; try assumption. discriminate.
+Qed.
+
+(* ---- arbitrary finite operands: "computed in float64" means two roundings --- *)
+Definition u64 : R := / 2 * bpow radix2 (-53 + 1).       (* unit roundoff 2^-53 *)
+Definition eta64 : R := / 2 * bpow radix2 (-1074).       (* half the smallest subnormal *)
+
+Lemma rnd64_error : forall x, exists eps eta,
+  Rabs eps <= u64 /\ Rabs eta <= eta64 /\ rnd64 x = x * (1 + eps) + eta.
+Proof.
+  intros x.
+  destruct (error_N_FLT radix2 (-1074) 53 eq_refl (fun n => negb (Z.even n)) x)
+    as (eps & eta & H1 & H2 & _ & H3).
+  exists eps, eta. repeat split; assumption.
+Qed.
+
+Lemma b64_step_rounded : forall (c a b : b64),
+  is_finite c = true -> is_finite a = true -> is_finite b = true ->
+  Rabs (rnd64 (B2R c * B2R a)) < bpow radix2 1024 ->
+  Rabs (rnd64 (B2R b - rnd64 (B2R c * B2R a))) < bpow radix2 1024 ->
+  let y := Bminus mode_NE b (Bmult mode_NE c a) in
+  is_finite y = true /\ B2R y = rnd64 (B2R b - rnd64 (B2R c * B2R a)).
+Proof.
+  intros c a b Fc Fa Fb H1 H2 y.
+  generalize (Bmult_correct 53 1024 _ _ mode_NE c a). cbn [round_mode].
+  rewrite Rlt_bool_true by exact H1. rewrite Fc, Fa. intros (M1 & M2 & _). cbn [andb] in M2.
+  generalize (Bminus_correct 53 1024 _ _ mode_NE b (Bmult mode_NE c a) Fb M2). cbn [round_mode].
+  rewrite M1, Rlt_bool_true by exact H2. intros (S1 & S2 & _). split; assumption.
+Qed.
+
+(* distance to the exact real value b - c*a: one unit roundoff of each operand
+   of the subtraction, plus the two possible underflow errors *)
+Lemma b64_step_error : forall (c a b : b64),
+  is_finite c = true -> is_finite a = true -> is_finite b = true ->
+  Rabs (rnd64 (B2R c * B2R a)) < bpow radix2 1024 ->
+  Rabs (rnd64 (B2R b - rnd64 (B2R c * B2R a))) < bpow radix2 1024 ->
+  let y := Bminus mode_NE b (Bmult mode_NE c a) in
+  Rabs (B2R y - (B2R b - B2R c * B2R a)) <=
+    u64 * (Rabs (B2R c * B2R a) + Rabs (B2R b - rnd64 (B2R c * B2R a))) + 2 * eta64.
+Proof.
+  intros c a b Fc Fa Fb H1 H2 y.
+  destruct (b64_step_rounded c a b Fc Fa Fb H1 H2) as (_ & Ry). fold y in Ry. rewrite Ry.
+  set (p := B2R c * B2R a) in *.
+  destruct (rnd64_error p) as (e1 & n1 & E1 & N1 & P1).
+  set (q := B2R b - rnd64 p) in *.
+  destruct (rnd64_error q) as (e2 & n2 & E2 & N2 & P2).
+  rewrite P2.
+  replace (q * (1 + e2) + n2 - (B2R b - p)) with (- (p * e1) - n1 + q * e2 + n2)
+    by (unfold q; rewrite P1; ring).
+  assert (A1 : Rabs (p * e1) <= u64 * Rabs p).
+  { rewrite Rabs_mult, Rmult_comm. apply Rmult_le_compat_r; [apply Rabs_pos|exact E1]. }
+  assert (A2 : Rabs (q * e2) <= u64 * Rabs q).
+  { rewrite Rabs_mult, Rmult_comm. apply Rmult_le_compat_r; [apply Rabs_pos|exact E2]. }
+  assert (T : forall s t v w, Rabs (- s - t + v + w) <= Rabs s + Rabs t + Rabs v + Rabs w).
+  { intros. unfold Rabs. repeat destruct Rcase_abs; lra. }
+  eapply Rle_trans; [apply T|]. lra.
+Qed.
+
+(* every sample of Preemphasize.apply on a finite float64 signal *)
+Lemma preemph_f64_accuracy_l : forall (cf : b64) (x : list b64) ip ax r i,
+  axis_ok ax = true -> (S i < length x)%nat ->
+  let a := nth i x (B754_zero false) in
+  let b := nth (S i) x (B754_zero false) in
+  is_finite cf = true -> is_finite a = true -> is_finite b = true ->
+  Rabs (rnd64 (B2R cf * B2R a)) < bpow radix2 1024 ->
+  Rabs (rnd64 (B2R b - rnd64 (B2R cf * B2R a))) < bpow radix2 1024 ->
+  exists y, out_arr (run nops ngen (VF cf) ip ax preemph_prog (Build_arr F64 (map VF x)) r)
+            = Some (Build_arr F64 y) /\
+    length y = length x /\
+    nth 0 y (VF (B754_zero false)) = VF (nth 0 x (B754_zero false)) /\
+    vR (nth (S i) y (VF (B754_zero false))) = rnd64 (B2R b - rnd64 (B2R cf * B2R a)) /\
+    Rabs (vR (nth (S i) y (VF (B754_zero false))) - (B2R b - B2R cf * B2R a)) <=
+      u64 * (Rabs (B2R cf * B2R a) + Rabs (B2R b - rnd64 (B2R cf * B2R a))) + 2 * eta64.
+Proof.
+  intros cf x ip ax r i Hax Hi a b Fc Fa Fb H1 H2.
+  destruct (preemph_values_l nops ngen (VF cf) ip ax F64 (map VF x) r Hax) as (_ & A).
+  rewrite !conv_same in A. eexists. split; [exact A|].
+  destruct (preemph_recurrence_l nops (VF cf) (map VF x) (VF (B754_zero false))) as (L & Z & S).
+  rewrite map_length in L, S. split; [exact L|]. split.
+  - rewrite Z. apply (map_nth VF).
+  - rewrite (S i Hi), !(map_nth VF). cbn [o_sub o_mul nops to_f]. unfold vR. cbn [to_f].
+    fold a b. split.
+    + now destruct (b64_step_rounded cf a b Fc Fa Fb H1 H2).
+    + now apply b64_step_error.
+Qed.
+
+(* Dither on float64: x + (0 + c*g) is x (+) (c (x) g): two roundings, the noise
+   added is the rounded product of coeff and the deviate *)
+Lemma b64_dither_step : forall (c g x : b64),
+  is_finite c = true -> is_finite g = true -> is_finite x = true ->
+  Rabs (rnd64 (B2R c * B2R g)) < bpow radix2 1024 ->
+  Rabs (rnd64 (B2R x + rnd64 (B2R c * B2R g))) < bpow radix2 1024 ->
+  let y := Bplus mode_NE x (Bplus mode_NE (B754_zero false) (Bmult mode_NE c g)) in
+  is_finite y = true /\ B2R y = rnd64 (B2R x + rnd64 (B2R c * B2R g)).
+Proof.
+  intros c g x Fc Fg Fx H1 H2 y.
+  generalize (Bmult_correct 53 1024 _ _ mode_NE c g). cbn [round_mode].
+  rewrite Rlt_bool_true by exact H1. rewrite Fc, Fg. intros (M1 & M2 & _). cbn [andb] in M2.
+  assert (Z : is_finite (Bplus mode_NE (B754_zero false) (Bmult mode_NE c g)) = true /\
+              B2R (Bplus mode_NE (B754_zero false) (Bmult mode_NE c g)) = B2R (Bmult mode_NE c g)).
+  { destruct (Bmult mode_NE c g) as [s|s| |s m e Hb]; try discriminate M2; [destruct s|]; split; reflexivity. }
+  destruct Z as (Z1 & Z2).
+  generalize (Bplus_correct 53 1024 _ _ mode_NE x _ Fx Z1). cbn [round_mode].
+  rewrite Z2, M1, Rlt_bool_true by exact H2. intros (S1 & S2 & _). split; assumption.
+Qed.
+
+Lemma g_draw_lgen : forall A (z : A) (g : list A), g_draw (lgen z) g (length g) = g.
+Proof.
+  intros A z g. unfold g_draw, lgen. cbn [g_next].
+  induction g as [|a g IH]; [reflexivity|]. cbn [length seq map nth]. f_equal.
+  rewrite <- seq_shift, map_map. exact IH.
+Qed.
+
+Lemma nth_zipw : forall A B C (f : A -> B -> C) l m i da db dc,
+  (i < length l)%nat -> (i < length m)%nat ->
+  nth i (zipw f l m) dc = f (nth i l da) (nth i m db).
+Proof.
+  induction l as [|a l IH]; intros [|b m] i da db dc Hl Hm; cbn in Hl, Hm; try lia.
+  destruct i; [reflexivity|]. cbn [zipw nth]. apply IH; lia.
+Qed.
+
+(* every sample of Dither.apply on a finite float64 signal *)
+Lemma dither_f64_value_l : forall (cf : b64) (x g : list b64) ip ax i,
+  axis_ok ax = true -> length g = length x -> (i < length x)%nat ->
+  let xi := nth i x (B754_zero false) in
+  let gi := nth i g (B754_zero false) in
+  is_finite cf = true -> is_finite gi = true -> is_finite xi = true ->
+  Rabs (rnd64 (B2R cf * B2R gi)) < bpow radix2 1024 ->
+  Rabs (rnd64 (B2R xi + rnd64 (B2R cf * B2R gi))) < bpow radix2 1024 ->
+  exists y, out_arr (run nops ngen (VF cf) ip ax dither_prog (Build_arr F64 (map VF x)) (map VF g))
+            = Some (Build_arr F64 y) /\
+    length y = length x /\
+    vR (nth i y (VF (B754_zero false))) = rnd64 (B2R xi + rnd64 (B2R cf * B2R gi)).
+Proof.
+  intros cf x g ip ax i Hax HL Hi xi gi Fc Fg Fx H1 H2.
+  destruct (dither_values_l nops ngen (VF cf) ip ax F64 (map VF x) (map VF g) Hax) as (_ & A & _).
+  rewrite !conv_same in A. eexists. split; [exact A|].
+  rewrite map_length. rewrite <- HL at 1 3. rewrite <- (map_length VF g).
+  unfold ngen. rewrite g_draw_lgen. unfold noise_of. split.
+  - rewrite zipw_length; rewrite ?map_length; [reflexivity|now rewrite HL].
+  - rewrite (nth_zipw _ _ _ _ _ _ i (VF (B754_zero false)) (VF (B754_zero false)))
+      by (rewrite ?map_length; lia).
+    rewrite (map_nth VF), map_map.
+    set (f := fun z : b64 => o_add nops (o_zero nops) (o_mul nops (VF cf) (VF z))).
+    rewrite (nth_indep _ (VF (B754_zero false)) (f (B754_zero false))) by (rewrite map_length; lia).
+    rewrite (map_nth f). unfold f.
+    unfold vR. cbn [o_add o_mul o_zero nops to_f]. fold xi gi.
+    now destruct (b64_dither_step cf gi xi Fc Fg Fx H1 H2).
 Qed.
